@@ -100,7 +100,7 @@ def run(ctx):
                 r = prog.resolve_expr(n.func, m.module, m.cls, m)
                 if isinstance(r, FunctionInfo) and r in walkers:
                     disc.append((m, n, r))
-    ctx.floor("R16.1", "discovery calls in BidsFileGroup", len(disc), 3)
+    ctx.floor("R16.1", "discovery calls in BidsFileGroup", len(disc), 2)
     want = {"name_suffix": field_of.get("suffix"), "exclude_dirs": field_of.get("exclude_dirs")}
     if None in want.values():
         raise AnalysisError("R16.1 anchor: BidsFileGroup.__init__ no longer stores suffix/exclude_dirs on self")
